@@ -987,6 +987,7 @@ def cases(ctx):
         base = zone_file(rng, origin, rel, nodes, plain=True)
         fancy = zone_file(rng, origin, rel, nodes, plain=False, noise=0.2, directives=False)
         yield "rrsets-respell", [24, origin, int(rel), base, fancy]
+        yield "rrsets-roundtrip", [27, origin, int(rel), base, int(rng.random() < 0.5)]
         if origin != [b""]:
             inh, exp = outside_block(rng, origin, allow_origin_switch=False)
             k = rng.randrange(10**6)
@@ -1090,6 +1091,20 @@ def impl(case):
             finally:
                 os.unlink(path)
             res.append([int(z3 == z), int(canon(dump(z3)) == canon(dump(z))), f.getvalue()[:4000]])
+            # (b') to_file(filename) / from_file(open text file object)
+            d = tempfile.mkdtemp(prefix="c09f")
+            try:
+                path = os.path.join(d, "out.zone")
+                z.to_file(path, style=st if st.nl is not None else st.replace(nl="\n"))
+                with open(path, encoding="utf-8") as fo:
+                    z5 = dns.zone.from_file(fo, origin=oname(case[1]), relativize=bool(case[2]))
+                with open(path, "rb") as fo:
+                    raw = fo.read()
+            finally:
+                for fn in os.listdir(d):
+                    os.unlink(os.path.join(d, fn))
+                os.rmdir(d)
+            res.append([int(z5 == z), int(canon(dump(z5)) == canon(dump(z))), raw[:4000]])
             # (c) the keyword API: Zone.to_text(sorted, relativize, nl, want_comments, want_origin)
             t = z.to_text(sorted=st.sorted, relativize=st.relativize or z.relativize, nl="\n",
                           want_comments=st.want_comments, want_origin=st.want_origin)
@@ -1139,6 +1154,18 @@ def impl(case):
             z2 = dns.zone.from_text(t, origin=oname(case[1]), relativize=bool(case[2]))
             return [int(z2 == z), int(canon(dump(z2)) == canon(dump(z))), int(z2.unicode == z.unicode),
                     int(t.startswith("$UNICODE"))]
+        if op == 27:
+            o = oname(case[1])
+            rel = bool(case[2])
+            rr = dns.zonefile.read_rrsets(bytes(case[3]).decode("latin-1"), rdclass=None, origin=o, relativize=rel)
+            want_rel = bool(case[4])
+            text = "".join(r.to_text(origin=o, relativize=want_rel) + "\n" for r in rr)
+            rr2 = dns.zonefile.read_rrsets(text, rdclass=None, origin=o, relativize=rel)
+            key = lambda rs: sorted((tuple(lower(x) for x in labels_of(r.name)), int(r.rdtype), int(r.covers), int(r.ttl),
+                                     tuple(sorted(rd_text(rd) for rd in r))) for r in rs)
+            return [int(key(rr) == key(rr2)), int(all(a == b for a, b in zip(sorted(rr, key=lambda r: (r.name, r.rdtype, r.covers)),
+                                                                         sorted(rr2, key=lambda r: (r.name, r.rdtype, r.covers))))),
+                    len(rr), text.encode("latin-1", "replace")[:3000]]
         if op == 24:
             outs, codes = [], []
             for t in (case[3], case[4]):
@@ -1177,9 +1204,9 @@ def oracle(ctx, kind, case, out):
     op = case[0]
     if isinstance(out, Err):
         # which exception classes may escape is C04's property; here only well-formed input matters
-        if op in (20, 21, 23, 24, 25, 26) and (out.code >= 100 or out.code < 0 or out.code == 11):
+        if op in (20, 21, 23, 24, 25, 26, 27) and (out.code >= 100 or out.code < 0 or out.code == 11):
             fail("unexpected exception " + out.text, sig="exc")
-        if op in (20, 25, 26) and out.code < 100:
+        if op in (20, 25, 26, 27) and out.code < 100:
             fail("a well-formed zone / respelling was rejected: " + out.text, sig="rejected-" + str(out.code))
         if op == 23 and 0 <= case[1] <= 2**32 - 1:
             fail("decimal TTL rejected")
@@ -1213,6 +1240,9 @@ def oracle(ctx, kind, case, out):
             fail("a well-formed spelling was rejected (%d / %d)" % (c1, c2), sig=kind + "-rejected")
         elif not (eq and eqd):
             fail("equivalent spellings loaded to different zones", sig=kind)
+    elif op == 27:
+        if not (out[0] and out[1]):
+            fail("rrsets changed by RRset.to_text then read_rrsets", sig=kind)
     elif op == 25:
         if not all(out):
             fail("$INCLUDE: the split file and the flat file loaded to different zones", sig=kind)
